@@ -184,13 +184,33 @@ def model_rows(window, times):
 # --------------------------------------------------------------------------
 # config
 # --------------------------------------------------------------------------
-def nested_streams(entries):
+def nested_streams(entries, form="plain"):
     out = OrderedDict()
     for e in entries:
-        out.setdefault(e["sid"], OrderedDict()).setdefault(e["module"], OrderedDict())[e["test"]] = json.loads(
-            json.dumps(e["params"]),
+        out.setdefault(e["sid"], OrderedDict()).setdefault(e["module"], OrderedDict())[e["test"]] = reform(
+            json.loads(json.dumps(e["params"])), form, top=True,
         )
     return out
+
+
+def reform(v, form, top=False):
+    """The same parameter values in another Python spelling (only for in-memory carriers):
+    'tuples' - sequences as tuples; 'numpy' - numbers as numpy scalars."""
+    if form == "plain":
+        return v
+    if isinstance(v, dict):
+        return {k: reform(x, form) for k, x in v.items()}
+    if isinstance(v, list):
+        inner = [reform(x, form) for x in v]
+        # a list of dicts (climatology members) stays a list; spans become tuples
+        return tuple(inner) if form == "tuples" and not any(isinstance(x, dict) for x in v) else inner
+    if form == "numpy" and isinstance(v, bool):
+        return v
+    if form == "numpy" and isinstance(v, int):
+        return np.int64(v)
+    if form == "numpy" and isinstance(v, float):
+        return np.float64(v)
+    return v
 
 
 def config_document(cfg, text=False):
@@ -208,7 +228,7 @@ def config_document(cfg, text=False):
             d["window"] = wd
         if c.get("region"):
             d["region"] = json.loads(json.dumps(c["region"]))
-        d["streams"] = nested_streams(c["entries"])
+        d["streams"] = nested_streams(c["entries"], "plain" if text else cfg.get("param_form", "plain"))
         ctxs.append(d)
     if cfg.get("layout", "contexts") == "streams" and len(ctxs) == 1:
         return ctxs[0]
@@ -218,8 +238,10 @@ def config_document(cfg, text=False):
 def _plain(o):
     if isinstance(o, dict):
         return {k: _plain(v) for k, v in o.items()}
-    if isinstance(o, (list, tuple)):
+    if isinstance(o, list):
         return [_plain(v) for v in o]
+    if isinstance(o, tuple):
+        return tuple(_plain(v) for v in o)
     return o
 
 
